@@ -270,9 +270,9 @@ class World:
 
     SERVER = 'http://fake'
 
-    def __init__(self, clock: Callable[[], float], kinds: list[Kind] | None = None) -> None:
+    def __init__(self, clock: Callable[[], float], kinds: list[Kind] | None = None, rv0: int = 100) -> None:
         self.clock = clock
-        self.rv = 100
+        self.rv = rv0      # resource versions are opaque strings to clients: scenarios may start right below a digit boundary
         self.uid_counter = 0
         self.kinds: dict[tuple[str, str, str], Kind] = {}
         self.objects: dict[tuple[str, str, str], dict[tuple[str | None, str], dict]] = {}
